@@ -44,6 +44,9 @@ pub struct ConcPlan {
     /// SQLite: capture crash images at every mutating VFS call of the batch (several requests in flight)
     #[serde(default)]
     pub crash_images: u8,
+    /// SQLite: the servers own the concrete storage (no wrapper); scheduling points at VFS calls
+    #[serde(default)]
+    pub raw_storage: bool,
 }
 
 pub fn gen_plan(seed: u64, backend: Backend, entry: Entry, thorough: bool) -> ConcPlan {
@@ -145,6 +148,7 @@ pub fn gen_plan(seed: u64, backend: Backend, entry: Entry, thorough: bool) -> Co
         },
         skews_us: (0..3).map(|_| if r.chance(30, 100) { r.range(-5_000_000, 5_000_000) } else { 0 }).collect(),
         same_worker: entry == Entry::Http && r.chance(22, 100),
+        raw_storage: backend == Backend::Sqlite && r.chance(35, 100),
         crash_images: if backend == Backend::Sqlite && r.chance(if thorough { 30 } else { 15 }, 100) { 1 + r.below(2) as u8 } else { 0 },
     }
 }
@@ -249,7 +253,21 @@ pub fn exec(plan: &ConcPlan) -> RunOut {
     }
     // server instances: instance 0 is the world's; further ones are new storage objects on the same directory
     let mut insts: Vec<Arc<Instance>> = Vec::new();
+    let raw_mode = plan.raw_storage && plan.backend == Backend::Sqlite;
+    if raw_mode {
+        out.bump("cfg.raw_storage_vfs_scheduling_points");
+    }
     for i in 0..plan.instances.max(1) {
+        if raw_mode {
+            match Instance::new_sqlite_raw(w.store.dir.as_ref().unwrap(), plan.cfg, None, plan.skews_us.get(i as usize).copied().unwrap_or(0)) {
+                Ok(inst) => insts.push(Arc::new(inst)),
+                Err(e) => {
+                    out.violations.push(viol(&["C03", "C13"], "conc.second_instance_failed", format!("opening an instance on the directory failed: {e:#}")));
+                    return out;
+                }
+            }
+            continue;
+        }
         let raw: Arc<dyn Storage> = if i == 0 || plan.backend == Backend::Memory {
             w.store.raw.clone()
         } else {
@@ -295,6 +313,7 @@ pub fn exec(plan: &ConcPlan) -> RunOut {
             out.bump("cfg.crash_images_during_overlapping_requests");
         }
     }
+    crate::vfs::set_sched_points(raw_mode);
     let same_worker = plan.same_worker && http;
     if same_worker {
         out.bump("cfg.same_worker_async_interleaving");
@@ -369,6 +388,7 @@ pub fn exec(plan: &ConcPlan) -> RunOut {
         }
         })
     };
+    crate::vfs::set_sched_points(false);
     let images = if capture {
         crate::vfs::pause_capture(true);
         crate::vfs::set_capture(false, 0, false, 0);
@@ -741,6 +761,11 @@ pub fn shrink(plan: &ConcPlan) -> Vec<ConcPlan> {
     if plan.same_worker {
         let mut p = plan.clone();
         p.same_worker = false;
+        c.push(p);
+    }
+    if plan.crash_images > 0 {
+        let mut p = plan.clone();
+        p.crash_images = 0;
         c.push(p);
     }
     c
